@@ -55,10 +55,17 @@ func (c *FnCtx) evalCall(env *Env, x *ast.CallExpr) Val {
 				recv := c.eval(env, f.X)
 				// follow embedded path to the actual receiver
 				idx := sel.Index()
+				msig := m.Type().(*types.Signature)
 				if len(idx) > 1 {
+					if _, wantPtr := msig.Recv().Type().(*types.Pointer); wantPtr {
+						// promoted method with a pointer receiver: p.M() is (&p.Embedded).M()
+						if a, ok := c.embeddedAddr(env, recv, idx[:len(idx)-1], x); ok {
+							args := c.evalArgs(env, x, msig)
+							return c.callFunc(env, m, &a, args, x, nil)
+						}
+					}
 					recv = c.fieldPath(env, recv, idx[:len(idx)-1], x)
 				}
-				msig := m.Type().(*types.Signature)
 				rt := c.subst(recv.Typ)
 				if _, isI := rt.Underlying().(*types.Interface); isI {
 					args := c.evalArgs(env, x, msig)
@@ -667,7 +674,9 @@ func (c *FnCtx) callFuncInner(env *Env, fn *types.Func, recv *Val, args []Val, x
 	if key == c.Fn.Key && c.inSpec == 0 {
 		// direct recursion: partial correctness is not enough for "never crashes" (unbounded
 		// recursion is a fatal stack overflow in Go); a measure must decrease
-		if ct == nil || ct.FnDecreases == nil {
+		if c.noSafety && (ct == nil || ct.FnDecreases == nil) {
+			// functional contract only (`nosafety`): termination of the recursion is not claimed
+		} else if ct == nil || ct.FnDecreases == nil {
 			c.oblige(env.st, "term", "recursion", "false", "recursive call without a decreases measure", false, x)
 		} else {
 			entryEnv := &Env{st: c.entry, spec: true, old: c.entry, spkg: c.Fn.Pkg.Types, lookup: func(n string) (Val, bool) { v, ok := c.paramVals[n]; return v, ok }}
@@ -1147,12 +1156,18 @@ func (c *FnCtx) opaqueCallFn(env *Env, fn *types.Func, sig *types.Signature, rec
 	c.Opaque[key] = true
 	if !external {
 		fi := c.E.ByObj[fn.Origin()]
+		var mods map[string]types.Type
 		if fi != nil && fi.Decl != nil {
-			c.havocMods(env.st, c.E.modOfFunc(c, fi))
+			mods = c.E.modOfFunc(c, fi)
 		} else {
 			// interface method: union over implementations
-			c.havocMods(env.st, c.E.modOfMethodName(c, fn))
+			mods = c.E.modOfMethodName(c, fn)
 		}
+		if os.Getenv("ELKVC_MODS") != "" {
+			_, all := mods["*"]
+			fmt.Fprintf(os.Stderr, "mods of opaque %s: %d keys, everything=%v\n", key, len(mods), all)
+		}
+		c.havocMods(env.st, mods)
 	}
 	return c.opaqueResults(env, key, sig)
 }
